@@ -93,6 +93,56 @@ def check_lifting(ctx, R="C05.lift"):
             ctx.finding(R, f, "makeDelayedFunctionCall value", "makeDelayedFunctionCall.value does not return func(*subvalues, **kwsubvals)")
 
 
+def check_containers(ctx, R="C05.containers"):
+    ctx.rule(
+        R,
+        "container literals are lifted at every depth: in toDistribution the elements tested for randomness and the elements handed to "
+        "TupleDistribution are the RECURSIVELY converted elements (toDistribution applied to each element first), so a random value nested "
+        "inside a constant-looking inner list is still found; FunctionDistribution converts every positional and keyword argument",
+    )
+    model = ctx.model
+    fn = model.func(DI, "toDistribution")
+    v = fn.args.args[0].arg
+    conv = {lib.role_text(None, f"[toDistribution(c) for c in {v}]"), lib.role_text(None, f"tuple(toDistribution(c) for c in {v})"), lib.role_text(None, f"list(toDistribution(c) for c in {v})")}
+    builds = [c for c in walk_local(fn) if isinstance(c, ast.Call) and dotted(c.func) == "TupleDistribution"]
+    if not builds:
+        raise AnalysisError("shape not recognised: toDistribution builds no TupleDistribution")
+    for c in builds:
+        star = [a.value for a in c.args if isinstance(a, ast.Starred)]
+        handed = lib.role_text(fn, star[0]) if len(star) == 1 else None
+        if handed in conv:
+            ctx.ok(R, c, "TupleDistribution receives the recursively converted elements")
+        else:
+            ctx.finding(R, c, "TupleDistribution elements", f"toDistribution builds `{norm_text(c, 70)}` from elements that were not converted recursively: a nested random value stays unlifted")
+        tests = [t for t, pol in lib.guard_tests(c, fn) if pol and isinstance(t, ast.Call) and dotted(t.func) == "any"]
+        okt = False
+        for t in tests:
+            g = t.args[0] if t.args else None
+            if isinstance(g, (ast.GeneratorExp, ast.ListComp)) and len(g.generators) == 1 and isinstance(g.elt, ast.Call) and dotted(g.elt.func) in ("isLazy", "needsSampling", "needsLazyEvaluation"):
+                if lib.role_text(fn, g.generators[0].iter) in conv:
+                    okt = True
+                else:
+                    ctx.finding(
+                        R,
+                        t,
+                        "randomness test on unconverted elements",
+                        f"toDistribution decides whether a container is random with `{norm_text(t, 70)}`, which looks at the raw elements: an inner list / tuple holding a "
+                        f"random value is an ordinary Python list (not lazy), so `[[Range(0, 1), 5], 7]` is treated as a constant",
+                    )
+                    okt = None
+        if okt is True:
+            ctx.ok(R, c, "the randomness test ranges over the converted elements")
+        elif okt is False:
+            raise AnalysisError("shape not recognised: randomness test of toDistribution's container branch")
+    fd = model.func(DI, "FunctionDistribution.__init__")
+    t = {lib.role_text(fd, n.value) for n in walk_local(fd) if isinstance(n, ast.Assign)}
+    pa, pk = fd.args.args[2].arg, fd.args.args[3].arg
+    if lib.role_text(None, f"tuple(toDistribution(a) for a in {pa})") in t and lib.role_text(None, f"{{n: toDistribution(a) for n, a in {pk}.items()}}") in t:
+        ctx.ok(R, fd, "FunctionDistribution converts every positional and keyword argument")
+    else:
+        ctx.finding(R, fd, "FunctionDistribution argument conversion", "FunctionDistribution.__init__ no longer applies toDistribution to every positional and keyword argument")
+
+
 def _mentions_plain(e, name):
     """e is `name`, `*name`, or an addition/tuple containing it (not a comprehension over it)."""
     if isinstance(e, ast.Starred):
@@ -541,6 +591,7 @@ def check_names(ctx, R="C05.names"):
 
 def check(ctx):
     check_lifting(ctx)
+    check_containers(ctx)
     check_evaluate_inner(ctx)
     check_shortcuts(ctx)
     check_support(ctx)
